@@ -52,6 +52,8 @@ def case_window(ctx, mr, case):
                     res.append('i:%x' % w.seek(op[1], op[2]))
                 elif op[0] == 'w':
                     res.append('i:%x' % w.write(bytes.fromhex(op[1])))
+                elif op[0] == 'wv':
+                    res.append('i:%x' % w.write(memoryview(bytes.fromhex(op[1])).cast({2: 'H', 4: 'I', 8: 'Q'}[op[2]])))
                 else:
                     res.append('i:%x' % w.tell())
             except Exception as e:
@@ -71,11 +73,39 @@ def case_window(ctx, mr, case):
     ctx.stat('window_inside' if inside else 'window_beyond_base')
 
 
+class ReadOnlyBytesIO(io.BytesIO):
+    """what a file opened 'rb' is: every way of changing it is refused"""
+
+    def writable(self):
+        return False
+
+    def write(self, b):
+        raise io.UnsupportedOperation('write')
+
+    def truncate(self, *a):
+        raise io.UnsupportedOperation('truncate')
+
+
 def build_view(rng, cls, content_len):
     """returns (view, content, writable, probe_outside) for the oracle-only classes"""
     from pyctr.fileio import SubsectionIO, SplitFileMerger, CloseWrapper
     pre, post = pyenv.rbytes(rng, rng.randrange(0, 9)), pyenv.rbytes(rng, rng.randrange(0, 9))
     content = pyenv.rbytes(rng, content_len)
+    if cls in ('window-ro', 'ctr-on-window-ro', 'twl-on-window-ro'):
+        # views of a file that was opened read-only: writes are refused by the file underneath, and a refused call changes nothing
+        from .. import ctrcommon as cc
+        key, ctr = pyenv.rbytes(rng, 16), rng.getrandbits(100)
+        stored = content if cls == 'window-ro' else cc.stream_xor(key, ctr, content, cls == 'twl-on-window-ro')
+        bio = ReadOnlyBytesIO(pre + stored + post)
+        v = SubsectionIO(bio, len(pre), len(content))
+        keep = [bio, v]
+        if cls != 'window-ro':
+            slot = 0x03 if cls == 'twl-on-window-ro' else 0x2C
+            e = cc.make_engine(key, slot)
+            v = e.create_ctr_io(slot, v, ctr)
+            keep.append(e)
+        o = len(pre)
+        return v, content, False, (lambda: bio.getvalue()[:o] + b'|' + bio.getvalue()[o + len(content):]), keep
     if cls == 'nested-window':
         pre2, post2 = pyenv.rbytes(rng, rng.randrange(0, 5)), pyenv.rbytes(rng, rng.randrange(0, 5))
         bio = io.BytesIO(pre + pre2 + content + post2 + post)
@@ -199,7 +229,7 @@ def case_oracle(ctx, case, mr=None):
     ops = case['ops']
     if case['cls'] in ('reader-file', 'dpfs-file', 'ivfc-file', 'ncch-fulldec'):
         # the size of these views is known only once they are built: the history is drawn for the real size (same seed, so it replays)
-        ops = fc.gen_ops(rng, len(content), len(case['ops']) + 2, writable=writable, whences=(0, 0, 1, 2, 2))
+        ops = fc.gen_ops(rng, len(content), len(case['ops']) + 2, writable=writable, whences=(0, 0, 1, 2, 2), spellings=case['cls'] in SPELLED)
         case = dict(case, ops=ops)
     c = fc.Contract(v, content, fail_fn(ctx, case), writable=writable, probe_outside=probe)
     c.run(ops)
@@ -228,6 +258,11 @@ def case_oracle(ctx, case, mr=None):
             ctx.stat('merger_model_histories')
 
 
+# classes whose histories include read(None) and writes handed over as buffers of wider items
+SPELLED = ('nested-window', 'closewrapper', 'ctr-on-window', 'twl-on-window', 'dpfs-file', 'ivfc-file', 'exefs-entry')
+READ_ONLY = ('window-ro', 'ctr-on-window-ro', 'twl-on-window-ro')
+
+
 def gen_cases(ctx, rng):
     n = ctx.n(400, 20000)
     for i in range(n):
@@ -237,14 +272,15 @@ def gen_cases(ctx, rng):
         short = rng.random() < 0.15   # window reaching beyond the base file's end
         blen = off + sz + extra if not short else rng.randrange(off, off + sz + 1)
         yield dict(cls='window', base=pyenv.rbytes(rng, blen).hex(), off=off, sz=sz,
-                   ops=fc.gen_ops(rng, sz, rng.randrange(1, 16)))
-    for cls in ('nested-window', 'closewrapper', 'merger', 'ctr-on-window', 'twl-on-window', 'cbc-on-window', 'reader-file', 'dpfs-file', 'ivfc-file', 'exefs-entry', 'ncch-fulldec'):
+                   ops=fc.gen_ops(rng, sz, rng.randrange(1, 16), spellings=rng.random() < 0.3))
+    for cls in ('nested-window', 'closewrapper', 'merger', 'ctr-on-window', 'twl-on-window', 'cbc-on-window', 'reader-file', 'dpfs-file', 'ivfc-file', 'exefs-entry', 'ncch-fulldec') + READ_ONLY:
         for i in range(ctx.n(300, 10000) if cls not in ('reader-file', 'dpfs-file', 'ivfc-file', 'ncch-fulldec') else ctx.n(60, 1500)):
             sz = rng.choice([0, 1, 2, 3, 5, 16, 17, 40])
             if cls == 'cbc-on-window':
                 sz = rng.choice([0, 16, 32, 48, 80])
             yield dict(cls=cls, sz=sz, vseed=rng.randrange(1 << 30),
-                       ops=fc.gen_ops(rng, sz, rng.randrange(1, 16), writable=(cls not in ('merger', 'cbc-on-window', 'reader-file'))))
+                       ops=fc.gen_ops(rng, sz, rng.randrange(1, 16), writable=(cls not in ('merger', 'cbc-on-window', 'reader-file') + READ_ONLY),
+                                      refused_writes=cls in READ_ONLY, spellings=cls in SPELLED))
 
 
 def exhaustive_cases():
